@@ -615,6 +615,10 @@ class Resolver:
         for v in list(defs):
             if isinstance(v, ast.IfExp):
                 defs += [v.body, v.orelse]
+        # handler = other_local: the definitions of that local (one step, no cycles)
+        for v in list(defs):
+            if isinstance(v, ast.Name) and v.id != name and v.id in self.local_defs(fi):
+                defs += [w for w in self.local_defs(fi)[v.id] if not isinstance(w, ast.Name)]
         def lambda_targets(lam):
             # calling the lambda runs its body: what the body calls is what the call can reach
             for c in ast.walk(lam.body):
